@@ -394,7 +394,7 @@ func init() {
 		st1.ghost["perminv"] = Sc{inv, arrSort(SInt, SInt)}
 		return Tup{}, x.assign(n.Args[0], ns, st1)
 	})
-	reg("regexp.MustCompile", "compiles the (constant) pattern", func(x *Exec, n *ast.CallExpr, recv ast.Expr, st *State) (Val, *State) {
+	reg("regexp.MustCompile", "compiles the (constant) pattern; the constant pattern \\S+ is recognised: its matches in a string s are the canonical token functions wsN(s) / wsF(s, j) of specs/45smtext.spec", func(x *Exec, n *ast.CallExpr, recv ast.Expr, st *State) (Val, *State) {
 		_, st1 := x.eval(n.Args[0], st)
 		o := x.c.freshObj("re", "regexp.Regexp").(Obj)
 		if cv, ok := x.constOf(n.Args[0]); ok && constant.StringVal(cv) == `\S+` {
@@ -757,7 +757,7 @@ func init() {
 		c.assumeHere(tAnd(tImp(can, tEq(e, "0")), tImp(tNot(can), tGt(e, "2"))))
 		return scInt(e), x.assignBack(recv, no, st1)
 	})
-	reg("bufio.NewScanner", "line scanner (ScanLines) over the reader: its line sequence is a function of the reader", func(x *Exec, n *ast.CallExpr, recv ast.Expr, st *State) (Val, *State) {
+	reg("bufio.NewScanner", "line scanner (ScanLines) over the reader: its line sequence is a function of the reader - the ScanLines split (lnN/lnS/lnT/lnE: lines end at LF or at the end, one CR before the terminator dropped) of the byte sequence the reader delivers, when the reader does not fail", func(x *Exec, n *ast.CallExpr, recv ast.Expr, st *State) (Val, *State) {
 		rv, st1 := x.eval(n.Args[0], st)
 		c := x.c
 		o := Obj{"bufio.Scanner", map[string]Val{}}
@@ -812,7 +812,7 @@ func init() {
 		}
 		return scBool(ok), x.assignBack(recv, no, st1)
 	})
-	reg("(*bufio.Scanner).Buffer", "sets the maximum token size (the line/fault model of the scanner is a function of the reader; a token-too-long failure is one of the possible faults)", func(x *Exec, n *ast.CallExpr, recv ast.Expr, st *State) (Val, *State) {
+	reg("(*bufio.Scanner).Buffer", "sets the maximum token size (the line/fault model of the scanner is a function of the reader; a token-too-long failure is one of the possible faults); with a limit of at least 2^56 the scanner fails only when the reader does", func(x *Exec, n *ast.CallExpr, recv ast.Expr, st *State) (Val, *State) {
 		ov, st1 := x.eval(recv, st)
 		var vals []Val
 		for _, a := range n.Args {
